@@ -58,8 +58,42 @@ fn stores() -> Vec<(&'static str, Store)> {
         ("F.n.k", V::Int(5)),
         ("g", V::Int(-3)),
     ];
+    // string values that spell the names of other facts (a flat key, a dotted path, an object): a field reference
+    // is read once; its value is data, not another reference
+    let c: Vec<(&str, V)> = vec![
+        ("F.i", V::Int(5)),
+        ("F.j", V::Int(-3)),
+        ("F.x", V::Float(2.5)),
+        ("F.s", s("g")),
+        ("F.t", s("g")),
+        ("F.b", V::Bool(true)),
+        ("F.arr", V::Arr(vec![s("g"), s("F.i")])),
+        ("F.n.k", V::Int(7)),
+        ("g", V::Int(4)),
+    ];
+    let d: Vec<(&str, V)> = vec![
+        ("F.i", V::Int(5)),
+        ("F.j", V::Int(5)),
+        ("F.x", V::Float(5.0)),
+        ("F.s", s("F.i")),
+        ("F.t", s("F")),
+        ("F.b", V::Bool(false)),
+        ("F.arr", V::Arr(vec![s("F.i")])),
+        ("F.n.k", V::Int(5)),
+        ("g", s("F.i")),
+    ];
     let mk = |v: &Vec<(&str, V)>, nested: bool| Store { nested, vals: v.iter().map(|(k, x)| (k.to_string(), x.clone())).collect() };
-    vec![("A_nested", mk(&a, true)), ("A_flat", mk(&a, false)), ("B_nested", mk(&b, true)), ("B_flat", mk(&b, false)), ("empty", Store { nested: true, vals: BTreeMap::new() })]
+    vec![
+        ("A_nested", mk(&a, true)),
+        ("A_flat", mk(&a, false)),
+        ("B_nested", mk(&b, true)),
+        ("B_flat", mk(&b, false)),
+        ("empty", Store { nested: true, vals: BTreeMap::new() }),
+        ("C_values_name_facts_nested", mk(&c, true)),
+        ("C_values_name_facts_flat", mk(&c, false)),
+        ("D_values_name_paths_nested", mk(&d, true)),
+        ("D_values_name_paths_flat", mk(&d, false)),
+    ]
 }
 
 #[derive(Clone, Debug)]
@@ -172,7 +206,7 @@ fn family_atoms(tier: Tier) -> Acc {
             }
         }
     }
-    acc.rep.bound = format!("every `lhs op rhs` with lhs in {:?}, all 10 operators, {} right-hand sides (typed literals + field references) x {} stores (2 value sets x nested/flat layout + empty)", LHS, rhs_all().len(), st.len());
+    acc.rep.bound = format!("every `lhs op rhs` with lhs in {:?}, all 10 operators, {} right-hand sides (typed literals + field references) x {} stores (4 value sets x nested/flat layout + empty; two value sets hold strings that spell the names of other facts)", LHS, rhs_all().len(), st.len());
     acc
 }
 
@@ -577,6 +611,69 @@ fn family_arith(tier: Tier) -> Acc {
     acc
 }
 
+// ---------------------------------------------------------------- family 3b: string concatenation with +
+/// GRL_SYNTAX.md "String Concatenation": `+` between strings concatenates (`"Order " + Order.id`). Defined here:
+/// every operand is a string and, at each step of the left-to-right evaluation, not both operands look numeric
+/// (two numeric-looking strings are added as numbers by the evaluator: undocumented, left open).
+fn family_concat(tier: Tier) -> Acc {
+    let mut acc = Acc { rep: Report::new("string_concatenation"), nontrivial: BTreeSet::new() };
+    let store = Store { nested: true, vals: [("F.s", s("ab")), ("F.t", s("Order ")), ("F.d", s("1042")), ("F.i", V::Int(7))].iter().map(|(k, v)| (k.to_string(), v.clone())).collect() };
+    let operands: Vec<(&str, &str)> = vec![("F.s", "ab"), ("F.t", "Order "), ("F.d", "1042"), ("\"x\"", "x"), ("\" \"", " "), ("\"7\"", "7"), ("\"a b\"", "a b")];
+    let numeric = |t: &str| t.parse::<f64>().is_ok();
+    let max_len = if tier == Tier::Quick { 3 } else { 4 };
+    let mut seqs: Vec<Vec<usize>> = (0..operands.len()).map(|i| vec![i]).collect();
+    let mut all: Vec<Vec<usize>> = vec![];
+    for _ in 1..max_len {
+        let mut next = vec![];
+        for q in &seqs {
+            for i in 0..operands.len() {
+                let mut n = q.clone();
+                n.push(i);
+                next.push(n);
+            }
+        }
+        all.extend(next.iter().cloned());
+        seqs = next;
+    }
+    for q in all {
+        let text = q.iter().map(|&i| operands[i].0).collect::<Vec<_>>().join(" + ");
+        // reference: left-to-right
+        let mut cur = operands[q[0]].1.to_string();
+        let mut defined = true;
+        for &i in &q[1..] {
+            let r = operands[i].1;
+            if numeric(&cur) && numeric(r) {
+                defined = false;
+                break;
+            }
+            cur = format!("{}{}", cur, r);
+        }
+        // assignment
+        acc.rep.count("evaluations", 1);
+        let facts = store.to_facts(&["F", "Out"]);
+        let grl = format!("rule \"T\" {{\n  when\n    F.i == 7\n  then\n    Out.v = {};\n}}", text);
+        let case = json!({"sub": "string_concatenation", "grl": grl, "store": store.describe(), "expect_string": if defined { Some(cur.clone()) } else { None }});
+        let out = run_grl(&grl, &facts, 1);
+        if !defined {
+            acc.rep.count("undefined", 1);
+        } else {
+            acc.nontrivial.insert(hstr(&format!("concat|{}", text)));
+            match out {
+                Err((class, detail)) => acc.rep.violation(Violation { class: format!("assignment_rejected_{}", class), detail: format!("`Out.v = {}`: {}", text, detail), tags: vec!["string_concatenation".into()], case }),
+                Ok(o) => {
+                    let got = read(&facts, "Out.v");
+                    if o.fired != 1 || got != Some(V::Str(cur.clone())) {
+                        acc.rep.violation(Violation { class: "assignment_stored_wrong_value".into(), detail: format!("`Out.v = {}` stored {:?} (fired {}), the concatenation is {:?}", text, got, o.fired, cur), tags: vec!["string_concatenation".into()], case });
+                    }
+                }
+            }
+        }
+        // concatenation inside conditions is not documented (GRL_SYNTAX.md shows it in actions only): not driven
+    }
+    acc.rep.bound = format!("every `a + b{}` over 7 string operands (3 fields incl. a numeric-looking one, 4 literals incl. blank and numeric-looking) as an assignment right-hand side (the documented position)", if max_len == 3 { " [+ c]" } else { " [+ c [+ d]]" });
+    acc
+}
+
 fn finish(mut a: Acc, t0: Instant) -> Report {
     a.rep.count("nontrivial", a.nontrivial.len() as u64);
     a.rep.wall_s = t0.elapsed().as_secs_f64();
@@ -606,6 +703,12 @@ pub fn run(opts: &Opts) -> Vec<Report> {
         a.rep.sample(json!({"grl": rule_text("F.i * 3 - F.x >= 18.25")}));
         out.push(finish(a, t0));
     }
+    if crate::props::wants(opts, "string_concatenation") {
+        let t0 = Instant::now();
+        let mut a = family_concat(opts.tier);
+        a.rep.sample(json!({"grl": "rule \"T\" { when F.i == 7 then Out.v = F.t + F.d; }", "expect": "Order 1042"}));
+        out.push(finish(a, t0));
+    }
     out.extend(crate::props::c02::run_dataflow(opts));
     out
 }
@@ -633,6 +736,12 @@ pub fn replay(case: &serde_json::Value) -> crate::props::ReplayResult {
                 let hit = read(&facts, "Out.hit") == Some(V::Bool(true));
                 if hit != e || (o.fired == 1) != hit {
                     return Err((hist, "condition_verdict_differs".into(), format!("expected fired={}, got fired={} (rules_fired {})", e, hit, o.fired)));
+                }
+            }
+            if let Some(e) = case["expect_string"].as_str() {
+                let got = read(&facts, "Out.v");
+                if got != Some(V::Str(e.to_string())) {
+                    return Err((hist, "assignment_stored_wrong_value".into(), format!("expected {:?}, got {:?}", e, got)));
                 }
             }
             if let Some(e) = case["expect_value"].as_f64() {
